@@ -287,6 +287,12 @@ func TestC27(t *testing.T) {
 			fmt.Fprintf(c, "GET %s/s HTTP/1.1\r\nHost: example.org\r\nConnection: close\r\n\r\n", target)
 			more, _ := sys.ReadAllTimeout(c, 5*time.Second)
 			rest = append(rest, more...)
+			if len(rest) == 0 {
+				// no byte at all within the time budget (overloaded machine, 5 MB bodies under the
+				// race detector): says nothing about framing either way
+				rec.Class("sentinel-no-answer-inconclusive")
+				return
+			}
 			sm, serr := ref.ParseResponse(rest, "GET", true)
 			if serr == nil && flush == "c27ka" && sm.Status/100 == 5 && len(rest) == sm.ConsumedLen {
 				// the harness backend closed a connection BFE was entitled to keep (in this or an earlier
